@@ -652,6 +652,11 @@ def execute(h):
                        c.get('clock0', cfg['clock0'])))
             clocks.append(own)
             cclk.append(own)
+            if (len(convs) + len(cfg['clock0'])
+                    + sum(map(ord, cfg['clock0']))) % 3 == 0:
+                # a callable like datetime.now
+                own.as_datetime = True
+                own.hour = [0, 23, 12][len(convs) % 3]
             if len(convs) % 4 == 2:
                 # the callable is a bound method of an object that only
                 # the converter refers to from now on
@@ -1294,6 +1299,27 @@ def execute(h):
                     cfg['convs'].append(dict(cfg['convs'][ci]))
                     bump(probes, 'converter_deep_copied')
                     out = 'copied'
+                # a shallow copy, used for look-ups only and dropped again:
+                # the same rates, the same base currency, the same clock
+                clk = cclk[ci]
+                if ci not in real_clock and clk.hook is None and \
+                        not clk.armed and clk.fail_next is None:
+                    import copy
+                    sc = copy.copy(convs[ci])
+                    bump(probes, 'converter_shallow_copied')
+                    for a in range(len(curs)):
+                        for b in range(len(curs)):
+                            if a == b:
+                                continue
+                            e = expected_rate(ci, a, b, clk.today,
+                                              count=False)
+                            o = observe(lambda: canon_rate(
+                                sc.get_rate(curs[a], curs[b])))
+                            if e[0] != 'unjudged' and o != e:
+                                violate('lookup', 'shallow_copy', i,
+                                        conv=ci, pair=[a, b],
+                                        expected=list(e), observed=list(o))
+                    del sc
                 else:
                     out = 'enough'
             elif kind == 'clockupdate':
